@@ -49,6 +49,14 @@ func main() {
 		fmt.Fprintln(os.Stderr, "harness assumes 64-bit int")
 		os.Exit(2)
 	}
+	if flag.Arg(0) == "worker" {
+		workerMain()
+		return
+	}
+	if flag.Arg(0) == "oracle" {
+		oracleMain()
+		return
+	}
 	g, ok := gens[flag.Arg(0)]
 	if !ok {
 		fmt.Fprintln(os.Stderr, "unknown property", flag.Arg(0))
@@ -61,6 +69,9 @@ func main() {
 		g(e, *tier, *seed)
 	}
 	e.w.Flush()
+	if wp != nil {
+		wp.kill()
+	}
 	if *statsPath != "" {
 		b, _ := json.Marshal(e.stats)
 		os.WriteFile(*statsPath, b, 0o644)
